@@ -125,13 +125,25 @@ Proof.
   intros c fin P P' s H (e & vs & n & St & Ch & Le & HE & HP). exists e, vs, n. auto 6.
 Qed.
 
+(* the caller's P is stable under any write inside the segment's own range *)
+Lemma stable_sub : forall pc' st fk nv nv' K ce n0 (P : list sv -> nat -> Prop),
+  stable (ctx_of pc' st fk nv nv' K ce n0) P ->
+  (forall (O : nat -> Prop) x y k k', (forall i, O i -> nv <= i < nv') -> P x k -> chg O x y -> k <= k' -> P y k') /\
+  (forall pc'' st' fk' lo hi ce' n0' x y k k', P x k -> keepS (ctx_of pc'' st' fk' lo hi K ce' n0') x y -> k <= k' -> P y k').
+Proof.
+  intros pc' st fk nv nv' K ce n0 P [S1 S2]. split.
+  - intros O x y k k' HO Hp C Hk. eapply S1; [exact Hp| |exact Hk]. eapply chg_mono; [|exact C]. exact HO.
+  - intros pc'' st' fk' lo hi ce' n0' x y k k' Hp C Hk. eapply S2; [exact Hp| |exact Hk]. exact C.
+Qed.
+
 Lemma impl_pipe : forall a b, Impl a -> Impl b -> Impl (QPipe a b).
 Proof.
   intros a b IHa IHb. impl_intro. simpl in Hc. dcomp. inversion Hc; subst cq nv'. clear Hc.
-  rename l into ca, n1 into n1, l0 into cb, n2 into n2.
+  rename l into ca, l0 into cb.
   destruct (code_at_app _ _ _ _ Hat) as [Hata Hatb].
   pose proof (comp_mono _ _ _ _ _ _ Ec) as M1. pose proof (comp_mono _ _ _ _ _ _ Ec0) as M2.
   assert (Hkl : forall i, kept ce i -> i < nv) by (intros; eapply kept_lt; eauto).
+  destruct (stable_sub _ _ _ _ _ _ _ _ _ (conj S1 S2)) as [S1' S2']. clear S1 S2.
   subst c. rewrite app_length, Nat.add_assoc.
   set (c := ctx_of (pc + length ca + length cb) st fk nv n2 K ce n0).
   set (c1 := ctx_of (pc + length ca) st fk nv n1 (fun i => nv <= i < n1 \/ kept ce i) ce n0).
@@ -151,19 +163,18 @@ Proof.
     - simpl; intros; lia.
     - simpl. intros i [Hi|Hi]; split; try lia; [apply HK1; lia|apply HK2; auto|apply Hkl in Hi; lia].
     - simpl. intros i Hi. apply Hkl in Hi. lia.
-    - intros g p q m m' Hj C Hm. eapply Jstd_chg; eauto.
-      + intros. eapply S1; eauto. eapply chg_mono; [|eauto]. simpl; intros; lia.
-      + simpl; intros; lia.
+    - intros g p q m m' Hj C Hm.
+      refine (Jstd_chg _ _ _ _ _ _ _ _ _ _ _ (fun x y k k' => S1' _ x y k k' _) _ Hj C Hm); simpl; intros; lia.
     - intros g p m (E & _). eapply envOK_lblOK; eauto.
     - intros w g fk' vs' n' os' x' g' (E & Hn' & Hl' & Hp') Efb. unfold fb in Efb. inversion Efb; subst os' x' g'.
       apply (IHb ce (pc + length ca) n1 cb n2 Ec0 Hatb rho w st (fk' ++ fk) vs' n' n0 K (J tt)); auto.
       + eapply envOK_nv; eauto.
       + intros; apply HK1; lia.
       + split.
-        * intros p q m m' Hj C Hm. eapply Jstd_chg; eauto.
-          -- intros. eapply S1; eauto. eapply chg_mono; [|eauto]. simpl; intros; lia.
-          -- simpl; intros; lia.
-        * intros p q m m' Hj C Hm. eapply Jstd_keep; eauto.
+        * intros p q m m' Hj C Hm.
+          refine (Jstd_chg _ _ _ _ _ _ _ _ _ _ _ (fun x y k k' => S1' _ x y k k' _) _ Hj C Hm); simpl; intros; lia.
+        * intros p q m m' Hj C Hm.
+          refine (Jstd_keep _ _ _ _ _ _ _ _ _ _ _ (fun x y k k' => S2' _ _ _ _ _ _ _ x y k k') _ Hj C Hm). exact HK2.
       + split; auto.
     - simpl. split; auto. }
   destruct x as [e|]; (eapply G_impl; [|exact HG]); intros s0; apply Tend_weaken; intros p m (_ & _ & _ & Hp); exact Hp.
